@@ -829,6 +829,9 @@ func genAllOfChain(r *rng) Project {
 	default:
 		p.Text = `{ // {allOf: ["` + names[n-2] + `", "` + last + `"]}` + "\n  \"own\": 1\n}"
 	}
+	if r.pct(30) {
+		p.Opt = "optkeys" // no key of the schema's own is required: only inherited ones are
+	}
 	return p
 }
 
@@ -1360,6 +1363,7 @@ func genWorldC10(seed uint64, faults bool) *World {
 	}
 	nobj := 2 + r.n(5)
 	shareTypes := r.pct(35)
+	inheritFamily := r.pct(12)
 	useBuf := r.pct(30) // the caller keeps some texts in reusable []byte buffers
 	torn := 0
 	if faults {
@@ -1373,6 +1377,35 @@ func genWorldC10(seed uint64, faults bool) *World {
 			p.ShareWith = 0
 		} else {
 			p = genProject(r, torn)
+		}
+		if shareTypes && inheritFamily && o <= 1 {
+			// an "API project" whose schemas inherit from shared base types: the first
+			// schema inherits several of them at once, the second inherits one
+			if o == 0 {
+				p = Project{Kind: "jschema", Name: "first.jst"}
+				n := 2 + r.n(3)
+				for i := 0; i < n; i++ {
+					text := "{\n  \"k" + strconv.Itoa(i) + "\": " + strconv.Itoa(i) + ",\n  \"o" + strconv.Itoa(i) + "\": \"s\" // {optional: true}\n}"
+					if i > 0 && r.pct(20) {
+						text = `{ // {allOf: "` + namePool[i-1] + `"}` + "\n  \"k" + strconv.Itoa(i) + "\": true\n}"
+					}
+					p.Types = append(p.Types, TypeSpec{Name: namePool[i], Kind: "j", Text: text})
+				}
+				perm := r.perm(n)
+				p.Text = `{ // {allOf: ["` + p.Types[perm[0]].Name + `", "` + p.Types[perm[1]].Name + `"]}` + "\n  \"own\": 1\n}"
+				if r.pct(50) {
+					p.Opt = "optkeys"
+				} else {
+					p.Opt = ""
+				}
+			} else {
+				dp := w.Objects[0]
+				p = Project{Kind: "jschema", Name: "second.jst", Types: dp.Types, Rules: dp.Rules, ShareWith: 1}
+				p.Text = `{ // {allOf: "` + dp.Types[r.n(len(dp.Types))].Name + `"}` + "\n  \"x\": 1\n}"
+				if r.pct(25) {
+					p.Opt = "optkeys"
+				}
+			}
 		}
 		if useBuf && p.Kind != "guess" && p.ShareWith == 0 && r.pct(50) {
 			p.Buf = 1 + r.n(2)
@@ -1397,9 +1430,13 @@ func genWorldC10(seed uint64, faults bool) *World {
 				if len(names) == 0 {
 					names = []string{"@a"}
 				}
-				if r.pct(30) {
+				switch {
+				case r.pct(30):
 					p.Text = dp.Text
-				} else {
+				case len(dp.Types) > 0 && r.pct(30):
+					// … a small schema that inherits one of the shared types
+					p.Text = `{ // {allOf: "` + dp.Types[r.n(len(dp.Types))].Name + `"}` + "\n  \"x" + strconv.Itoa(o) + "\": 1\n}"
+				default:
 					p.Text = genSchemaText(r, names, enums)
 				}
 			}
